@@ -6,6 +6,7 @@ DRIVER = "drv_legacy"
 LEAN_MODULES = ["MesaModel.Props.C09"]
 THEOREMS = [
     "Mesa.Legacy.C09_orth_spec",
+    "Mesa.Legacy.C09_in_range_is_distance",
     "Mesa.Legacy.C09_orth_defined_iff_in_grid",
     "Mesa.Legacy.C09_fast_eq_slow",
     "Mesa.Legacy.C09_cache_transparent",
